@@ -18,7 +18,7 @@ demo=none; demo_with=-; demo_without=-
 if [ -f "$src/demo.sh" ]; then
     demo=demo.sh
     # the seeding agents hard-coded their own worktree path; run a copy pointed at this worktree
-    sed "s|/tmp/seed_$pid|$W|g" "$src/demo.sh" > "$src/.confirm_demo.sh"
+    sed -e "s|/tmp/seed_$pid|$W|g" -e "s|/tmp/seedB_$pid|$W|g" -e "s|/tmp/seedC_$pid|$W|g" "$src/demo.sh" > "$src/.confirm_demo.sh"
     sh "$src/.confirm_demo.sh" "$W" >"/tmp/confirm_with.out" 2>&1; demo_with=$?
     git checkout -q -- .
     sh "$src/.confirm_demo.sh" "$W" >"/tmp/confirm_without.out" 2>&1; demo_without=$?
@@ -40,7 +40,7 @@ fi
 git checkout -q -- . ; git clean -fdq -e target
 mkdir -p "$dest"
 cp "$src/patch.diff" "$dest/"
-for f in demo.sh demo_test.rs demo_test.patch meta.md demo_driver.py script.sh reference_real.sh reference_virtual_test.rs; do [ -f "$src/$f" ] && cp "$src/$f" "$dest/"; done
+for f in demo.sh demo_test.rs demo_test.patch meta.md demo_driver.py script.sh reference_real.sh reference_virtual_test.rs patch_original.diff insert_demo.py; do [ -f "$src/$f" ] && cp "$src/$f" "$dest/"; done
 python3 - "$dest" "$pid" "$k" "$tests_with" "$demo" "$demo_with" "$demo_without" <<'PY'
 import json,sys
 dest,pid,k,tests,demo,dw,dwo=sys.argv[1:]
